@@ -157,6 +157,19 @@ std::string runCase(const Case& k, vh::Stats& st, bool& inconclusive, Value& tai
             st.cls("hash cleared between two tablebase roots");
             continue;
         }
+        if (rt.interlude && rt.cls.rfind("abort:", 0) == 0) {
+            // a search on a tablebase root that is stopped a generated number of milliseconds after the go, i.e. (for a class
+            // whose table is not resident) while the on-demand table is being generated; not judged itself
+            int ms = atoi(rt.cls.c_str() + 6);
+            us::Result r = ss.goInfinite(rt.fen, [](const std::string&) { return false; }, ms, gAnswerMs);
+            if (r.died) { err = r.why; break; }
+            if (!r.answered) { inconclusive = true; break; }
+            bool gotScore = false;
+            for (const us::Line& l : r.pv) if (l.inf.hasScore) gotScore = true;
+            st.cls(gotScore ? "search stopped early on a tablebase root (after its first score)" : "search stopped before its first score (during table generation for 4-man roots)");
+            resident.clear();
+            continue;
+        }
         if (rt.interlude) {
             us::Result r = ss.goInfinite(rt.fen, [](const std::string& l) { return l.rfind("info depth 2", 0) == 0; }, 2000, gAnswerMs);
             if (r.died) { err = r.why; break; }
@@ -259,6 +272,13 @@ int main(int argc, char** argv) {
                 if (i > 0 && c.chance(1, 14)) { int m = c.range(5, 6); Root il = genInterlude(c); for (int j = 0; j < m; j++) k.r.push_back(il); }
                 // the hash table (which hosts the on-demand table) is cleared between two roots: the next root must regenerate
                 if (i > 0 && c.chance(1, 5)) { Root cl; cl.interlude = true; cl.cls = c.flip() ? "clear:ucinewgame" : "clear:setoption name Clear Hash"; k.r.push_back(cl); }
+                // ... or the table is (re)generated for a search that is stopped 0..1200 ms after its go; the roots that follow in
+                // the same class must still get exact answers
+                if (i > 0 && c.chance(1, 5)) {
+                    Root cl; cl.interlude = true; cl.cls = "clear:setoption name Clear Hash"; k.r.push_back(cl);
+                    Root ab;
+                    if (genRoot(c, cls, ab)) { ab.interlude = true; ab.cls = "abort:" + std::to_string(c.of(std::vector<int>{0, 0, 5, 20, 60, 150, 300, 600, c.range(0, 1200)})); k.r.push_back(ab); }
+                }
                 Root r;
                 if (genRoot(c, cls, r)) k.r.push_back(r); else st.discarded++;
             }
